@@ -11,7 +11,14 @@ LEVEL_TEXT = ("Coq theorems: (1) for every history (any datagrams, any API calls
               "every (address, interface) pair and the TXT come from delivered records that are the latest delivery of "
               "their identity, have more than 1 s of TTL left (a goodbye never has) and were not displaced by a "
               "cache-flush more than 1 s after them; host non-empty, >= 1 address; (2) cache invariant cache_from_history; "
-              "(3) add_or_update / eviction specifications. The model is tied to the Rust daemon by the K6 simulation: "
+              "(3) add_or_update / eviction specifications; (4) round 6, clause 'as the network LAST advertised it': "
+              "chk_C03_last (host/port from the most recently received current SRV record, TXT from the most recently "
+              "received current TXT record) is a second extracted checker run on model and implementation; it is REFUTED for "
+              "the faithful model in the class known_reannounced (records delivered in the pattern A, B, A; witness "
+              "C03_known_reannounced_witness, finding C03-reannounced-record-keeps-position, the daemon agrees); proved for all "
+              "caches are the facts it rests on: resolve_service_from_cache uses the first SRV / TXT of the Vec that does not "
+              "expire within a second, a new record goes in front of the bucket, a record announced again is rewritten in "
+              "place. The model is tied to the Rust daemon by the K6 simulation: "
               "model trace = projected implementation trace on every generated history, and the same extracted chk_C03 "
               "runs on the implementation's events")
 TECHNIQUE = ("machine-checked proof in Coq (invariant over all histories of the cache/browser model; history-level checker "
@@ -22,10 +29,18 @@ LEVELS = ("K6 sim: one real daemon thread in the simulated world, responders pla
 RULE = ("histories of 1-3 instances on 1-2 interfaces: announcements (one packet, or any partition/order/duplication over "
         "packets and iterations), updates of port/TXT/addresses with and without cache-flush, goodbyes (full, partial, "
         "duplicated), refreshes, foreign and not-for-us packets, the same records on a second interface, verify, "
-        "stop/re-browse; TTLs 1 s .. 4500 s; timer-exact runs (run_until) and late wake-ups; horizons up to 4700 s; "
+        "stop/re-browse; quick updates (SRV / TXT update within 1 s of the announcement or without cache-flush bit, so that "
+        "two live records of one name and type coexist, then optionally the older record announced again, then a new "
+        "address); TTLs 1 s .. 4500 s; timer-exact runs (run_until) and late wake-ups; horizons up to 4700 s; "
         "non-trivial = the daemon emitted at least one event or follow-up question; distinct = distinct history lines")
 TRUSTED = bc.TRUSTED_COMMON
-PARTIAL = ("The theorem is about the model; its tie to the Rust code is the correspondence run (differential, not a proof). "
+PARTIAL = ("The clause 'last advertised' (chk_C03_last) is NOT a theorem over histories: outside the class known_reannounced "
+           "it is checked by the monitor on model and implementation for every generated history (a proof needs, beyond "
+           "the C03 invariant, completeness of the cache - every current for-us delivery is stored - bucket order = order "
+           "of first insertion, and stop_browse as a further class). Which deliveries of the current iteration precede an "
+           "event, and whether a record of a not-for-us response was stored, is not observable: the clause accepts any "
+           "prefix, and any not-for-us record after the last for-us one. "
+           "The theorem is about the model; its tie to the Rust code is the correspondence run (differential, not a proof). "
            "Inside one iteration the order of events and deliveries is not observable, so chk_C03 accepts a record "
            "delivered in the same iteration as justification. 'Tagged with the interfaces it was received on' is checked "
            "as soundness (every tagged interface has a justified delivery); completeness of the tag set is covered by the "
@@ -37,6 +52,15 @@ nontrivial = bc.nontrivial_obs
 shrink = bc.shrink_hist
 
 
+KNOWN = {
+    "notlast:reannounced-older": "C03-reannounced-record-keeps-position",
+}
+
+
+def known_class(line, impl_result, mon_result):
+    return bc.known_from_tags(mon_result, KNOWN)
+
+
 def generate(rng, tier):
     k = 1 if tier == "quick" else 12
     return bc.mk_cases(rng, [
@@ -46,6 +70,7 @@ def generate(rng, tier):
         ("long", 6 * k, bc.gen_long),
         ("case", 30 * k, lambda r, i: bc.gen_special(r, i, "case")),
         ("ptrvar", 10 * k, lambda r, i: bc.gen_special(r, i, "ptr-variant")),
+        ("quick", 150 * k, lambda r, i: bc.gen_special(r, i, "quick-update")),
     ])
 
 
